@@ -2,3 +2,4 @@ import Hannibal.Props.C08Current
 #print axioms Hannibal.C08_holds
 #print axioms Hannibal.C08_current
 #print axioms Hannibal.wellWired08_current
+#print axioms Hannibal.shape08_current
